@@ -228,6 +228,13 @@ func rels(ids ...int64) pbfgen.Group {
 	return g
 }
 
+// bare is a block whose PrimitiveBlock message is zero bytes long.
+func bare(raw bool) pbfgen.Block {
+	b := blk(raw)
+	b.Bare = true
+	return b
+}
+
 func blk(raw bool, gs ...pbfgen.Group) pbfgen.Block {
 	return pbfgen.Block{Groups: gs, Enc: pbfgen.Enc{Raw: raw}}
 }
@@ -320,7 +327,9 @@ func defs() []*fileDef {
 		// nodes, changesets only) at the start, in the middle and at the end.
 		defList = append(defList, std("K-empty-runs", &pbfgen.File{Header: pbfgen.StdHeader(), Blocks: []pbfgen.Block{
 			blk(false), blk(true, pbfgen.Group{}), blk(false, dense(1)), blk(true), blk(false, pbfgen.Group{Changesets: []int64{7}}),
-			blk(false, ways(10), rels(20)), blk(false, dense()), blk(true)}}))
+			blk(false, ways(10), rels(20)), blk(false, dense()), blk(true),
+			// a raw blob whose payload is present and zero bytes long, and the same as a zlib blob
+			bare(true), blk(false, dense(5)), bare(false)}}))
 
 		// H: a header and nothing else (every offset is 0, a resume at 0 sees the header again).
 		defList = append(defList, &fileDef{name: "H-header-only", file: &pbfgen.File{Header: pbfgen.StdHeader()}, flags: []int{0, 7}, variants: true})
